@@ -2775,3 +2775,102 @@ Proof.
   - exact (proj1 (converges_store g0 cap g evs d Hg Hall Hlt Hd)).
   - exact (pools_exact g0 cap g evs d Hg Hall Hlt Hf Hu Hd).
 Qed.
+
+(* ================================================================== *)
+(* 13. /repo HEAD's receiver under ANY delivery: no orphan reservation   *)
+(* ================================================================== *)
+(* every reservation is backed by a stored checkpoint that claims it, with that owner *)
+Definition backed (g0 : registry) (rc : receiver) : Prop :=
+  NoDup (map fst (rc_store rc)) /\
+  (forall c', resv_cp (rc_reg rc) c' = resv_cp g0 c') /\
+  forall x sid, lease_at (rc_reg rc) x = Some sid ->
+    exists k c, In (k, c) (rc_store rc) /\ In (x, sid) (resv_cp g0 c).
+
+Lemma claimed_false_notin g c x : claimed g c x = false -> ~ In x (claims g c).
+Proof. intros H Hin. apply claimed_in in Hin. congruence. Qed.
+
+Lemma backed_release g0 rc k : backed g0 rc ->
+  let g1 := match aget keyeqb k (rc_store rc) with
+            | Some old => release_cp repaired (rc_reg rc) old | None => rc_reg rc end in
+  (forall c', resv_cp g1 c' = resv_cp g0 c') /\
+  forall x sid, lease_at g1 x = Some sid ->
+    exists k' c, k' <> k /\ In (k', c) (rc_store rc) /\ In (x, sid) (resv_cp g0 c).
+Proof.
+  intros (Hn & Hgeo & Hb). cbv zeta.
+  destruct (aget keyeqb k (rc_store rc)) as [old|] eqn:E.
+  - split; [intros c'; rewrite resv_release; apply Hgeo|].
+    intros x sid Hl. rewrite lease_at_release_cp in Hl.
+    destruct (claimed (rc_reg rc) old x) eqn:C; [discriminate|].
+    destruct (Hb x sid Hl) as (k' & c & Hin & Hx). exists k', c. split; [|auto].
+    intros ->. apply (aget_in keyeqb keyeqb_eq _ _ _ Hn) in Hin. rewrite E in Hin. inversion Hin; subst c.
+    apply claimed_false_notin in C. apply C. rewrite (claims_geo _ g0 _ Hgeo). unfold claims.
+    apply in_map_iff. exists (x, sid). auto.
+  - split; [exact Hgeo|]. intros x sid Hl. destruct (Hb x sid Hl) as (k' & c & Hin & Hx). exists k', c. split; [|auto].
+    intros ->. exact (aget_none keyeqb keyeqb_eq _ _ E c Hin).
+Qed.
+
+Lemma backed_update g0 rc c l : backed g0 rc -> backed g0 (recv_update repaired (mkrecv l (rc_store rc) (rc_reg rc)) c).
+Proof.
+  intros Hb. pose proof (backed_release g0 rc (cp_key c) Hb) as [Hg1 Hl1]. destruct Hb as (Hn & Hgeo & _).
+  unfold recv_update. cbn [f_drop repaired rc_store rc_reg]. unfold backed. cbn [rc_store rc_reg].
+  split; [apply (nodup_aset keyeqb keyeqb_eq), Hn|]. split; [intros c'; rewrite resv_reserve; apply Hg1|].
+  intros x sid Hl. rewrite lease_at_reserve_cp in Hl.
+  match type of Hl with context [claimed ?G c x] => set (g1 := G) in * end.
+  destruct (claimed g1 c x) eqn:C.
+  - destruct (lease_at g1 x) as [o|] eqn:El.
+    + inversion Hl; subst o. destruct (Hl1 x sid El) as (k' & c0 & Hne & Hin & Hx). exists k', c0. split; [|exact Hx].
+      apply (in_aset keyeqb keyeqb_eq _ _ _ _ _ Hn). right. auto.
+    + inversion Hl; subst sid. exists (cp_key c), c. split.
+      * apply (in_aset keyeqb keyeqb_eq _ _ _ _ _ Hn). left. auto.
+      * apply claimed_in in C. rewrite (claims_geo g1 g0 _ Hg1) in C. apply claims_in, C.
+  - destruct (Hl1 x sid Hl) as (k' & c0 & Hne & Hin & Hx). exists k', c0. split; [|exact Hx].
+    apply (in_aset keyeqb keyeqb_eq _ _ _ _ _ Hn). right. auto.
+Qed.
+
+Lemma backed_delete g0 rc c l : backed g0 rc -> backed g0 (recv_delete repaired (mkrecv l (rc_store rc) (rc_reg rc)) c).
+Proof.
+  intros Hb. pose proof (backed_release g0 rc (cp_key c) Hb) as [Hg1 Hl1]. destruct Hb as (Hn & Hgeo & _).
+  unfold recv_delete. cbn [f_drop repaired rc_store rc_reg]. unfold backed. cbn [rc_store rc_reg].
+  split; [apply (nodup_adel keyeqb keyeqb_eq), Hn|]. split; [exact Hg1|].
+  intros x sid Hl. destruct (Hl1 x sid Hl) as (k' & c0 & Hne & Hin & Hx). exists k', c0. split; [|exact Hx].
+  apply (in_adel keyeqb keyeqb_eq). auto.
+Qed.
+
+Lemma backed_step g0 fl rc q : f_drop fl = false -> f_relall fl = false -> backed g0 rc -> backed g0 (recv_step fl rc q).
+Proof.
+  intros Hd Hr Hb. unfold recv_step.
+  destruct (negb (f_stale fl) && N.leb (q_seq q) (last_of rc (q_srg q))); [exact Hb|].
+  destruct (q_act q); rewrite ?recv_update_head, ?recv_delete_head by assumption;
+    [apply (backed_update g0 rc)|apply (backed_delete g0 rc)|apply (backed_update g0 rc)]; exact Hb.
+Qed.
+
+Lemma backed_run g0 fl d : f_drop fl = false -> f_relall fl = false ->
+  forall rc, backed g0 rc -> backed g0 (recv_run fl rc d).
+Proof.
+  intros Hd Hr. induction d as [|q r IH]; intros rc Hb; [exact Hb|]. rewrite recv_run_cons. apply IH, backed_step; assumption.
+Qed.
+
+Lemma backed_fresh g0 : fresh g0 -> backed g0 (mkrecv [] [] g0).
+Proof. intros Hf. split; [constructor|]. split; [reflexivity|]. intros x sid H. simpl in H. rewrite Hf in H. discriminate. Qed.
+
+(* range replays on /repo HEAD: whatever is reserved in the end belongs to a live session (nothing leaks) *)
+Lemma pools_sound_replays g0 cap g fl evs d :
+  f_stale fl = true -> f_drop fl = false -> f_relall fl = false ->
+  g <> 0%N -> (forall e, In e evs -> s_srg (fst e) = g) -> (N.of_nat (length evs) < n64)%N ->
+  fresh g0 ->
+  let reqs := snd (sender_run [(g, (0%N, new_ring cap))] evs) in
+  delivery_runs reqs 0 d (length reqs) ->
+  forall x sid, lease_at (rc_reg (recv_run fl (mkrecv [] [] g0) d)) x = Some sid ->
+                In (x, sid) (expected_leases g0 (live_run evs)).
+Proof.
+  intros Hs Hd Hr Hg Hall Hlt Hf reqs Hdel x sid Hl.
+  pose proof (backed_run g0 fl d Hd Hr _ (backed_fresh g0 Hf)) as (Hn & _ & Hb).
+  destruct (Hb x sid Hl) as (k & c & Hin & Hx).
+  pose proof (converges_store_replays g0 cap g fl evs d Hs Hg Hall Hlt Hdel k) as Hk.
+  apply (aget_in keyeqb keyeqb_eq _ _ _ Hn) in Hin. rewrite Hin in Hk. symmetry in Hk.
+  unfold expected_store in Hk. rewrite aget_map in Hk.
+  destruct (aget keyeqb k (live_run evs)) as [s|] eqn:El; [|discriminate]. inversion Hk; subst c.
+  unfold expected_leases. apply in_flat_map. exists (k, s). split; [|exact Hx].
+  assert (Hok : live_ok (live_run evs)) by (apply (live_ok_fold evs []); split; [constructor|intros ? ? []]).
+  apply (aget_in keyeqb keyeqb_eq _ _ _ (proj1 Hok)). exact El.
+Qed.
